@@ -276,12 +276,12 @@ int main(int argc, char** argv) {
   }
   bool thorough = strcmp(argv[4], "thorough") == 0;
   vt::Rng r(seed);
-  if (thorough) special_reps = 0;
+  if (thorough) special_reps = 20;
   std::vector<int64_t> es = eras();
   // every day of one 400-year cycle as a base (stride in quick), each replicated in one era chosen
   // by rotation so that all eras see all parts of the cycle over the run
   long idx = 0;
-  const long stride = thorough ? 1 : 61;
+  const long stride = thorough ? 11 : 61;     // thorough: ~13k base days x 19 eras in rotation (~3M events per family)
   long phase = (long)(seed % (uint64_t)stride);
   for (int yy = 0; yy < 400; ++yy)
     for (int m = 1; m <= 12; ++m)
@@ -291,7 +291,7 @@ int main(int argc, char** argv) {
           continue;
         int64_t era = es[(size_t)((idx / stride + (long)seed) % (long)es.size())];
         if (era > kMax - yy) continue;  // beyond the maximum year
-        base_day(r, era + yy, m, d, thorough ? 2 : 6);
+        base_day(r, era + yy, m, d, thorough ? 3 : 6);
         if (fam_wday && (thorough || idx % 5 == 0)) {  // the plain modern era as well
           ev_wday(civil_second(2000 + yy, m, d, 12, 0, 0));
           for (int wd = 0; wd < 7; ++wd) ev_nextprev(civil_day(2000 + yy, m, d), wd);
